@@ -222,7 +222,7 @@ func init() {
 		BudgetThor:  30 * time.Minute,
 		Kind:        "schedules",
 		Rule: "happens-before race monitor (vector clocks; edges: unlock->lock, RUnlock->Lock, WaitGroup.Done->Wait, go statement) over the hooked shared-memory accesses of every explored execution of: all goroutine-spawning engine models (4 rules, one failing, called twice), conc blocks (incl. every pair of statement kinds in which one touches the local store or calls a method of an object held in a local), pool request scenarios (3 clients / reuse / panicking request / a request whose result map stays empty / conservation phase; the client's own reads of the result map it was handed are accesses too) through 5 execute methods, every update kind || every pool execution model, update from inside a rule, every management call (5 updates incl. clear, SetExecModel, 5 queries) || two executions, and every management call || every update; " +
-			"each scenario explored under every schedule with <=2 (thorough: 3 for every third scenario, and the larger scenario list) deviations from the default scheduler (delay bounding), then re-explored with every racy access site turned into a scheduling point until no new racy site appears. Observer calls create NO happens-before edges. " + fmt.Sprint("Oracle: no two conflicting accesses unordered by happens-before"),
+			"each scenario explored under every schedule with <=2 (thorough: 3 for every twelfth scenario, and the larger scenario list) deviations from the default scheduler (delay bounding), then re-explored with every racy access site turned into a scheduling point until no new racy site appears. Observer calls create NO happens-before edges. " + fmt.Sprint("Oracle: no two conflicting accesses unordered by happens-before"),
 		Assume: []string{"accesses the instrumenter does not hook (arrays, strings, state reached only through reflect) are seen only by the free-running `go test -race`-style cross-check, not by this check", "sequential consistency for the explored control flow"},
 		Run: func(c *hx.Ctx) {
 			raceCrossCheck(c)
@@ -235,8 +235,8 @@ func init() {
 				b := bounds[i]
 				if b > 0 {
 					b = delayBound(c, b)
-					if c.Thorough() && i%3 == 0 {
-						b = 3 // the third deviation for every third scenario (all of them do not finish in the budget)
+					if c.Thorough() && i%12 == 0 {
+						b = 3 // the third deviation for every twelfth scenario (measured: every third does not finish in 25 minutes)
 					}
 				}
 				if !c.Mine(i) {
